@@ -5,7 +5,7 @@
 // Variants (macros): VH_THREADING, VH_KEY (0 int, 1 long std::string), VH_INCLUDE (1: the event is
 // the first argument of the prototype, dispatch/enqueue use the `Args...` forms),
 // VH_PROTO (0 by value, 1 const reference), VH_ORDERED (0 std::list, 1 ascending, 2 descending),
-// VH_GETEVENT (1: a user getEvent policy that maps the raw key of the call to the event, with an explicit
+// VH_GETEVENT (2: a getEvent policy that returns std::cref of the key argument; 1: a user getEvent policy that maps the raw key of the call to the event, with an explicit
 // ArgumentPassingInclude/ExcludeEvent mode; the script's key k is passed as a raw key that the policy maps
 // back to k), VH_CCI (1: a canContinueInvoking policy, configured per script by `cfg cci M R`:
 // continue iff M == 0 or value % M != R).
@@ -68,9 +68,12 @@ using KeyT = int;
 static KeyT mkKey(long k) { return (int)k; }
 // the key as an event of the dispatcher (what the policy yields): never masked
 static long keyNum(const KeyT & k) { return k; }
-#if VH_GETEVENT
+#if VH_GETEVENT == 1
 static KeyT mkRaw(long k, long v) { return (int)(k + 256 * (1 + ((v % 3) + 3) % 3)); }
 static KeyT maskKey(const KeyT & raw) { return raw & 0xff; }
+#elif VH_GETEVENT == 2
+static KeyT mkRaw(long k, long) { return mkKey(k); }
+static KeyT maskKey(const KeyT & raw) { return raw; }
 #endif
 #else
 using KeyT = std::string;
@@ -81,9 +84,13 @@ static long keyNum(const KeyT & k) {
 	if(k.find('#') != std::string::npos) return -2; // a raw key that was not mapped by the policy
 	return std::atol(k.c_str() + p.size());
 }
-#if VH_GETEVENT
+#if VH_GETEVENT == 1
 static KeyT mkRaw(long k, long v) { return mkKey(k) + "#raw-suffix-of-the-call-" + std::to_string(v % 3); }
 static KeyT maskKey(const KeyT & raw) { return raw.substr(0, raw.find('#')); }
+#elif VH_GETEVENT == 2
+// the policy hands back a reference INTO the call's own arguments (std::cref of the key argument): the raw key is the event
+static KeyT mkRaw(long k, long) { return mkKey(k); }
+static KeyT maskKey(const KeyT & raw) { return raw; }
 #endif
 #endif
 #if !VH_GETEVENT
@@ -128,7 +135,11 @@ struct Policies {
 	using Threading = VH_THREADING;
 #if VH_GETEVENT
 	// parameters by value on purpose (VH_PROTO == 0): whatever the library passes in is consumed here
-#if VH_PROTO == 0
+#if VH_GETEVENT == 2
+	// a result that is not the event itself but converts to a reference to it (what `return std::cref(message.topic)`
+	// gives): the library must have its own copy of the event before it forwards the arguments on
+	static std::reference_wrapper<const KeyT> getEvent(const KeyT & raw, const Payload & a) { if(!a.valid) ++g_policyMoved; return std::cref(raw); }
+#elif VH_PROTO == 0
 	static KeyT getEvent(KeyT raw, Payload a) { if(!a.valid) ++g_policyMoved; return maskKey(raw); }
 #else
 	static KeyT getEvent(const KeyT & raw, const Payload & a) { if(!a.valid) ++g_policyMoved; return maskKey(raw); }
@@ -449,6 +460,9 @@ struct World {
 		else if(op == "emptyq") res(q.emptyQueue() ? "true" : "false");
 		else if(op == "dqnb") { dqn.emplace_back(new Queue::DisableQueueNotify(box.p)); res("unit"); }
 		else if(op == "dqne") { if(!dqn.empty()) dqn.pop_back(); res("unit"); }
+		// a copy of the newest live DisableQueueNotify is one more live object; a temporary assigned to it comes and goes
+		else if(op == "dqnc") { if(dqn.empty()) dqn.emplace_back(new Queue::DisableQueueNotify(box.p)); else dqn.emplace_back(new Queue::DisableQueueNotify(*dqn.back())); res("unit"); }
+		else if(op == "dqna") { if(!dqn.empty()) *dqn.back() = Queue::DisableQueueNotify(box.p); res("unit"); }
 		else out.push_back("bad-op " + op);
 	}
 
